@@ -240,13 +240,13 @@ Qed.
 
 Lemma objstep_flow r r' : objstep r = Some r' -> (length (oflow r') < length (oflow r))%nat.
 Proof.
-  unfold objstep. destruct (oflow r) as [|[| | | | |] f]; try discriminate; intro H; inversion H; subst; clear H; simpl; try lia.
+  unfold objstep. destruct (oflow r) as [|[| | | | | |] f]; try discriminate; intro H; inversion H; subst; clear H; simpl; try lia.
   destruct (live r); simpl; lia.
 Qed.
 
 Lemma objstep_none r : objstep r = None -> oflow r = [] \/ exists f, oflow r = OCore :: f.
 Proof.
-  unfold objstep. destruct (oflow r) as [|[| | | | |] f]; try discriminate; intros _; [left; reflexivity|right; eauto].
+  unfold objstep. destruct (oflow r) as [|[| | | | | |] f]; try discriminate; intros _; [left; reflexivity|right; eauto].
 Qed.
 
 Lemma ostep0_decreases s : ocode s <> 0 -> (omeasure (ostep 0 s) < omeasure s)%nat.
@@ -306,11 +306,13 @@ Proof.
     + pose proof (ostep_arrival_le d s Hd). pose proof (settle_le (ostep d s)). lia.
 Qed.
 
-Lemma decode_fops_length l : (length (core_of (decode_fops l)) <= length l)%nat /\ (length (shape_of (decode_fops l)) <= length l)%nat.
+(* op 10 (shutdown(true)) contributes two steps - the increment and the error report - and ends the flow *)
+Lemma decode_fops_length l : (length (core_of (decode_fops l)) <= length l)%nat /\ (length (shape_of (decode_fops l)) <= length l + 1)%nat.
 Proof.
   induction l as [|x r [IH1 IH2]]; simpl; [lia|].
   destruct ((x =? 1) || (x =? 4)); simpl; [lia|]. destruct (x =? 2); simpl; [lia|]. destruct (x =? 3); simpl; [lia|].
-  destruct (x =? 5); simpl; [lia|]. destruct (x =? 6); simpl; [lia|]. destruct (x =? 7); simpl; [lia|]. destruct (x =? 8); simpl; [lia|]. destruct (x =? 9); simpl; lia.
+  destruct (x =? 5); simpl; [lia|]. destruct (x =? 6); simpl; [lia|]. destruct (x =? 7); simpl; [lia|]. destruct (x =? 8); simpl; [lia|]. destruct (x =? 9); simpl; [lia|].
+  destruct (x =? 10); simpl; lia.
 Qed.
 
 (* the fuel handed out by orun_with is enough for every run of every case *)
